@@ -5,6 +5,7 @@ every history enumerated by TLC is realised as a valid events file and run throu
 EventManager; base / contexts / residual strings / process end indices are compared with the
 values the specification prescribes.
 """
+import collections
 import json
 import multiprocessing as mp
 import os
@@ -59,7 +60,8 @@ def concretise(case, rng):
                 txt = "(Def/%s, Offset)" % sp
                 can_delay = False
             else:
-                tag = PROC_TAGS[pid % len(PROC_TAGS)]
+                # Duration processes come in pairs with IDENTICAL content: two different ongoing processes may read the same
+                tag = PROC_TAGS[(pid // 2) % len(PROC_TAGS)]
                 txt = "(Duration/%s, (%s))" % (_dur_text(a["d"], rng), tag)
                 tokens[pid] = tag
             if can_delay and j > 1 and rng.random() < 0.3:
@@ -138,6 +140,18 @@ def judge(c):
 
     def found(text):
         return {p for p, tok in tokens.items() if re.search(r"(?<![\w/-])" + re.escape(tok) + r"(?![\w/-])", text)}
+
+    def count(text):
+        """how often each process token occurs in the text (two processes may carry the same token)"""
+        c = collections.Counter()
+        for tok in set(tokens.values()):
+            k = len(re.findall(r"(?<![\w/-])" + re.escape(tok) + r"(?![\w/-])", text))
+            if k:
+                c[tok] = k
+        return c
+
+    def toks(pids):
+        return collections.Counter(tokens[p] for p in pids)
     for j in range(1, len(times) + 1):
         if j not in first:
             prob.append(("missing-time-point", "no entry for time point %d (t=%d ms)" % (j, times[j - 1])))
@@ -145,23 +159,24 @@ def judge(c):
         i0 = first[j]
         want_s, want_c = set(exp[j - 1]["started"]), set(exp[j - 1]["context"])
         entries = [i for i in tp_of if tp_of[i] == j]
-        got_s = set().union(*[found(res["base"][i]) for i in entries])
-        if got_s != want_s:
-            prob.append(("started", "time point %d: processes listed as starting %s, specification %s" % (j, sorted(got_s), sorted(want_s))))
-        got_c = found(res["contexts"][i0])
-        if got_c != want_c:
-            kind = "context-extra" if got_c - want_c else "context-missing"
-            prob.append((kind, "time point %d (entry %d): context %s, specification %s" % (j, i0, sorted(got_c), sorted(want_c))))
+        got_s = sum((count(res["base"][i]) for i in entries), collections.Counter())
+        if got_s != toks(want_s):
+            prob.append(("started", "time point %d: processes listed as starting %s, specification %s" % (j, dict(got_s), dict(toks(want_s)))))
+        got_c = count(res["contexts"][i0])
+        if got_c != toks(want_c):
+            kind = "context-extra" if got_c - toks(want_c) else "context-missing"
+            prob.append((kind, "time point %d (entry %d): context %s, specification %s (processes %s)"
+                         % (j, i0, dict(got_c), dict(toks(want_c)), sorted(want_c))))
         for i in entries:
             if i == i0:
                 continue
-            g = found(res["contexts"][i])
-            if g == want_c:
+            g = count(res["contexts"][i])
+            if g == toks(want_c):
                 continue
-            if g == want_c | want_s or (want_c <= g <= want_c | want_s):
+            if g == toks(want_c | want_s) or (not (toks(want_c) - g) and not (g - toks(want_c | want_s))):
                 drift.append("follower entry %d of time point %d lists processes started at that same time as context" % (i, j))
             else:
-                prob.append(("context-follower", "time point %d follower entry %d: context %s, specification %s" % (j, i, sorted(g), sorted(want_c))))
+                prob.append(("context-follower", "time point %d follower entry %d: context %s, specification %s" % (j, i, dict(g), dict(toks(want_c)))))
         resid = ",".join(res["resid"][i] for i in entries)
         for p in plain.get(j, []):
             if p not in resid:
@@ -178,18 +193,21 @@ def judge(c):
         if [re.sub(r"\s+", "", x) for x in av["unfiltered_new"]] != [re.sub(r"\s+", "", x) for x in res["resid"]]:
             prob.append(("view-changes-manager:unfold", "an unfiltered view asked for after a filtered one gives %s, the remaining "
                          "annotations are %s" % (av["unfiltered_new"], res["resid"])))
-    # process end indices
+    # process end indices (two processes may read the same: compare, per start point and token, the multisets of end points)
     n = len(res["onsets"])
+    got_ends, want_ends = collections.Counter(), collections.Counter()
     for i, lst in enumerate(res["events"]):
         for contents, s, e in lst:
-            ps = found(contents)
-            if len(ps) != 1:
+            tk = [t for t in count(contents)]
+            if len(tk) != 1 or tp_of.get(i) is None:
                 continue
-            p = ps.pop()
-            want_end = c["endidx"][p - 1]
-            got_end = len(times) + 1 if e >= n else tp_of.get(e)
-            if got_end != want_end:
-                prob.append(("end", "process %d (%s) ends at time point %s, specification %s" % (p, contents, got_end, want_end)))
+            got_ends[(tp_of[i], tk[0], len(times) + 1 if e >= n else tp_of.get(e))] += 1
+    for j in range(1, len(times) + 1):
+        for p in exp[j - 1]["started"]:
+            want_ends[(j, tokens[p], c["endidx"][p - 1])] += 1
+    if got_ends != want_ends:
+        prob.append(("end", "processes (start point, content, end point) %s, specification %s"
+                     % (sorted((got_ends - want_ends).elements()), sorted((want_ends - got_ends).elements()))))
     return prob, drift
 
 
